@@ -226,6 +226,106 @@ func (c *Net) snapshots(id int) [][2]uint64 {
 	return res
 }
 
+// hookRec is one record of a node's hook trace (/repo/verif_trace.go), as far as this stage reads it.
+type hookRec struct {
+	Point    string `json:"point"`
+	Index    uint64 `json:"index"`
+	First    uint64 `json:"first"`
+	Last     uint64 `json:"last"`
+	Included uint64 `json:"included"`
+}
+
+func (c *Net) hookRecs(id int) []hookRec {
+	f, err := os.Open(c.tracePath(id))
+	if err != nil {
+		return nil
+	}
+	defer f.Close()
+	var res []hookRec
+	sc := bufio.NewScanner(f)
+	sc.Buffer(make([]byte, 1<<20), 1<<20)
+	for sc.Scan() {
+		var rec hookRec
+		if json.Unmarshal(sc.Bytes(), &rec) == nil {
+			res = append(res, rec)
+		}
+	}
+	return res
+}
+
+// appliedIndex is the raft index of the last entry node id's FSM.Apply has finished (hook
+// fsm.apply; the entries FSM.Restore replays are not reported by that hook).
+func (c *Net) appliedIndex(id int) uint64 {
+	var last uint64
+	for _, r := range c.hookRecs(id) {
+		if r.Point == "fsm.apply" && r.Index > last {
+			last = r.Index
+		}
+	}
+	return last
+}
+
+// restoreRec describes one FSM.Restore of a node, from the node's own hook trace: the last index
+// its FSM.Apply had finished before, and first/last of the irclog the restore left.
+type restoreRec struct {
+	pre, first, last uint64
+}
+
+func (c *Net) restores(id int) []restoreRec {
+	var res []restoreRec
+	var pre uint64
+	for _, r := range c.hookRecs(id) {
+		switch r.Point {
+		case "fsm.apply":
+			if r.Index > pre {
+				pre = r.Index
+			}
+		case "fsm.restored":
+			res = append(res, restoreRec{pre: pre, first: r.First, last: r.Last})
+		}
+	}
+	return res
+}
+
+func (c *Net) waitApplied(id int, idx uint64, deadline time.Duration) bool {
+	end := time.Now().Add(deadline)
+	for {
+		if c.appliedIndex(id) >= idx {
+			return true
+		}
+		if time.Now().After(end) {
+			return false
+		}
+		time.Sleep(100 * time.Millisecond)
+	}
+}
+
+var restoreLogRe = regexp.MustCompile(`^[IWEF](\d{4}) (\d\d:\d\d:\d\d\.\d{6}).*\] (Restoring snapshot|Restored snapshot in)`)
+
+// restoreLogTimes reads from node id's own log when its restores began and ended ("Restoring
+// snapshot" / "Restored snapshot in ..." of FSM.Restore), in trace time.
+func (c *Net) restoreLogTimes(id int) (begin, end []int64) {
+	f, err := os.Open(c.stderrPath(id))
+	if err != nil {
+		return nil, nil
+	}
+	defer f.Close()
+	sc := bufio.NewScanner(f)
+	sc.Buffer(make([]byte, 1<<20), 1<<20)
+	for sc.Scan() {
+		if m := restoreLogRe.FindStringSubmatch(sc.Text()); m != nil {
+			if t, ok := glogTime(m[1], m[2]); ok {
+				if m[3] == "Restoring snapshot" {
+					begin = append(begin, c.rec.Ms(t))
+				} else {
+					end = append(end, c.rec.Ms(t))
+				}
+			}
+		}
+	}
+	return begin, end
+}
+
 var (
 	// glog header: Lmmdd hh:mm:ss.uuuuuu threadid file:line] msg
 	sweepLogRe = regexp.MustCompile(`^[IWEF](\d{4}) (\d\d:\d\d:\d\d\.\d{6}).*Expiring session \{(\d+) (\d+)\}`)
@@ -340,6 +440,8 @@ type Scenario struct {
 	notes    []string
 	unmet    []string
 	expect   []string
+	// restoredNode: the node that installed a snapshot at run time (0: none in this scenario)
+	restoredNode int
 }
 
 type cfgCall struct {
@@ -356,10 +458,14 @@ func (sc *Scenario) note(format string, a ...interface{}) {
 func (sc *Scenario) Assemble(sp *Sampler) (seq []Ev, aux []Ev, info map[string]interface{}, err error) {
 	c := sc.c
 	info = map[string]interface{}{}
-	// the replicated log, as stored by the nodes
+	// the replicated log, as stored by the nodes. No single node need have all of it: FSM.Snapshot
+	// folds old entries into the state and deletes them from the irclog, FSM.Restore starts a new
+	// irclog, a node that was killed lacks the end. The log is the union; where two nodes store
+	// the same index they must agree.
 	var entries []entry
-	best := 0
+	best, bestLen := 0, -1
 	logs := map[int][]entry{}
+	byIdx := map[uint64]entry{}
 	for _, n := range c.nodes {
 		es, e := dumpIrclog(n.dir)
 		if e != nil {
@@ -367,27 +473,41 @@ func (sc *Scenario) Assemble(sp *Sampler) (seq []Ev, aux []Ev, info map[string]i
 			continue
 		}
 		logs[n.id] = es
-		if len(es) > len(entries) {
-			entries, best = es, n.id
+		if len(es) > bestLen {
+			best, bestLen = n.id, len(es)
 		}
 	}
 	if best == 0 {
 		return nil, nil, info, inconclusive("no irclog could be read")
 	}
-	byIdx := map[uint64]entry{}
-	for _, e := range entries {
-		byIdx[e.idx] = e
-	}
-	for id, es := range logs {
-		for _, e := range es {
-			if o, ok := byIdx[e.idx]; ok && (o.typ != e.typ || o.nano != e.nano || o.sess != e.sess) {
-				sc.note("irclog of node %d differs from node %d at index %d", id, best, e.idx)
-				break
+	for _, n := range c.nodes {
+		differs := false
+		for _, e := range logs[n.id] {
+			if o, ok := byIdx[e.idx]; !ok {
+				byIdx[e.idx] = e
+			} else if (o.typ != e.typ || o.nano != e.nano || o.sess != e.sess) && !differs {
+				differs = true
+				sc.note("irclog of node %d differs from an earlier node's at index %d", n.id, e.idx)
 			}
 		}
 	}
+	for _, e := range byIdx {
+		entries = append(entries, e)
+	}
+	sort.Slice(entries, func(a, b int) bool { return entries[a].idx < entries[b].idx })
+	if len(entries) > bestLen {
+		info["irclog_union_of_nodes"] = true
+	}
 	info["entries"] = len(entries)
 	info["irclog_of_node"] = best
+	// every session the orchestrator created must be in the log with its CreateSession entry:
+	// otherwise the log that could be read is incomplete (folded away everywhere) and no verdict
+	// may be based on it
+	for _, s := range sc.sessions {
+		if e, ok := byIdx[uint64(s.idx)]; !ok || e.typ != robust.CreateSession {
+			return nil, nil, info, inconclusive("the CreateSession entry %d of session %s is in no irclog that could be read", s.idx, s.name)
+		}
+	}
 	by := c.proposers()
 
 	bySid := map[int64]*Sess{}
